@@ -5,8 +5,9 @@ X == Sym("x")  V == Sym("v")  A == Sym("a")  Bc == Sym("b")  DT == Sym("dt")
 B1 == [state |-> {"x", "v"}, control |-> {"a"}, calib |-> {"b"},
        update |-> ("x" :> Bin("add", X, Bin("mul", V, DT))) @@ ("v" :> Bin("add", V, Bin("mul", Bin("sub", A, Bc), DT))),
        calmap |-> ("b" :> RQ(1, 2)), pnoise |-> ("a" :> RI(2)), ppairs |-> <<>>,
-       sensors |-> ("s1" :> (("r" :> X) @@ ("q1" :> Bin("add", V, Bc)))) @@ ("alt" :> ("h" :> Pow(X, 2))),
-       snoise  |-> ("s1" :> (("r" :> RI(1)) @@ ("q1" :> RI(3)))) @@ ("alt" :> ("h" :> RI(2)))]
+       \* (both sensors have a reading called "r": reading names are per sensor)
+       sensors |-> ("s1" :> (("r" :> X) @@ ("q1" :> Bin("add", V, Bc)))) @@ ("alt" :> ("r" :> Pow(X, 2))),
+       snoise  |-> ("s1" :> (("r" :> RI(1)) @@ ("q1" :> RI(3)))) @@ ("alt" :> ("r" :> RI(2)))]
 \* B2: no control, no calibration, one sensor with one reading
 B2 == [state |-> {"p"}, control |-> {}, calib |-> {},
        update |-> ("p" :> Bin("mul", Sym("p"), CI(2))),
